@@ -14,6 +14,9 @@ T1_SOURCES = ["src/fiber_manager.c", "src/fiber.c", "src/fiber_mutex.c", "src/fi
 T1_FLAGS = ["-Dpthread_create=t1_pthread_create"]
 
 
+L_REST = 3900     # search mode: byte b of the fiber_mutex_t = 3900 + b (bytes registered otherwise keep their locs)
+
+
 def parse_case(case):
     v = [int(x) for x in case.split()]
     i = 1 + v[0]
@@ -29,6 +32,9 @@ def parse_case(case):
 def monitor(case, tr, raw):
     if tr is None:
         return "implementation produced no trace: %s" % (raw or "")[:80]
+    # search mode (RT_CATCHALL=1): accesses to bytes of the object(s) that have no location of their own are
+    # scheduling points, not events of the protocol judged here
+    tr = [e for e in tr if e[1] < L_REST or e[2] in (909, 919)]
     _, progs = parse_case(case)
     n = len(progs)
     owner = None            # thread that wrote the cell last and has not released
